@@ -3,10 +3,12 @@ package world
 import (
 	"fmt"
 	"reflect"
+	"runtime"
 	"runtime/debug"
 	"sort"
 	"strings"
 	"sync"
+	"time"
 
 	"github.com/go-kid/ioc/app"
 	"github.com/go-kid/ioc/component_definition"
@@ -37,6 +39,9 @@ type NodeSpec struct {
 	Fails []string           `json:"fails,omitempty"`
 	// FailOnce: callbacks that fail on their first invocation only
 	FailOnce []string `json:"fail_once,omitempty"`
+	// Lookups: component names this node looks up through App.GetComponentByName from inside its first
+	// initialization callback (service-locator style); errors of the lookups are ignored by the node.
+	Lookups []string `json:"lookups,omitempty"`
 }
 
 func (n *NodeSpec) DisplayName() string {
@@ -91,7 +96,9 @@ type Run struct {
 	Panic     any
 	Stack     string
 	Diverge   *mon.Divergence
-	index     map[any]int // population identity -> index in Pop.Pop
+	index     map[any]int   // population identity -> index in Pop.Pop
+	SubInfo   map[any]*Wrap // same-type substitutes made by a Substituter -> their description
+	Stalled   bool
 	ops       []app.SettingOption
 }
 
@@ -139,13 +146,28 @@ func initTagger(t *Tagger, nodeType component_definition.PropertyType) *Tagger {
 
 // Build creates the node instances and the App with all monitors installed, without running it.
 func Build(sc *Scenario, opt Options) *Run {
-	r := &Run{Sc: sc, Log: mon.NewLifecycle()}
+	r := &Run{Sc: sc, Log: mon.NewLifecycle(), SubInfo: map[any]*Wrap{}}
 	r.Tagger = newTagger()
 	for i := range sc.Nodes {
 		ns := &sc.Nodes[i]
 		n := Palette[ns.Type].New()
 		k := n.Core()
 		k.Idx, k.Name, k.Qual, k.KindV, k.Ord, k.Log, k.Hook = i, ns.Name, ns.Qual, ns.Kind, ns.Ord, r.Log, opt.Hook
+		if len(ns.Lookups) > 0 {
+			lookups, outer, done := ns.Lookups, opt.Hook, false
+			k.Hook = func(kind string, who Node) {
+				if outer != nil {
+					outer(kind, who)
+				}
+				if (kind == "init" || kind == "aps") && !done {
+					done = true
+					for _, name := range lookups {
+						r.Log.Add("lookup", name)
+						r.App.GetComponentByName(name)
+					}
+				}
+			}
+		}
 		if len(ns.Fails) > 0 {
 			k.Fails = map[string]bool{}
 			for _, f := range ns.Fails {
@@ -254,9 +276,50 @@ func Start(sc *Scenario, opt Options) *Run {
 	return r
 }
 
-// Go runs App.Run under recover.
+// Go runs App.Run under recover, on its own goroutine, and watches for a stall: when App.Run has not
+// returned and no monitor has seen any progress (lifecycle events, registry calls, binder reads,
+// tagger hits) during 3 million scheduler yields AND 5 s, the start is declared stalled (blocked
+// forever) and the goroutine is abandoned.
 func (r *Run) Go() {
-	r.Guard(func() { r.Err = r.App.Run(r.ops...) })
+	done := make(chan struct{})
+	go func() {
+		defer close(done)
+		r.Guard(func() { r.Err = r.App.Run(r.ops...) })
+	}()
+	last, idle := -1, 0
+	t0 := time.Now()
+	for {
+		select {
+		case <-done:
+			return
+		default:
+		}
+		p := r.progress()
+		if p != last {
+			last, idle, t0 = p, 0, time.Now()
+		}
+		idle++
+		if idle > 3000000 && time.Since(t0) > 5*time.Second {
+			r.Stalled = true
+			return
+		}
+		if idle%256 == 0 {
+			time.Sleep(20 * time.Microsecond)
+		} else {
+			runtime.Gosched()
+		}
+	}
+}
+
+func (r *Run) progress() int {
+	p := r.Log.Len() + r.Binder.Count()
+	if r.Tracer != nil {
+		p += r.Tracer.Steps()
+	}
+	r.Tagger.mu.Lock()
+	p += r.Tagger.Seen
+	r.Tagger.mu.Unlock()
+	return p
 }
 
 // Guard runs f, converting panics into r.Panic / r.Diverge.
@@ -277,6 +340,8 @@ func (r *Run) Guard(f func()) {
 // Outcome: "ok" | "error" | "panic" | "diverged"
 func (r *Run) Outcome() string {
 	switch {
+	case r.Stalled:
+		return "stalled"
 	case r.Diverge != nil:
 		return "diverged"
 	case r.Panic != nil:
@@ -289,6 +354,8 @@ func (r *Run) Outcome() string {
 
 func (r *Run) OutcomeDetail() string {
 	switch {
+	case r.Stalled:
+		return "stalled: App.Run did not return and nothing observable happened during 3 million scheduler yields and 5 s"
 	case r.Diverge != nil:
 		return r.Diverge.Error()
 	case r.Panic != nil:
@@ -408,6 +475,9 @@ func (r *Run) RefOf(v any) Ref {
 	if w, ok := v.(*Wrap); ok {
 		return Ref{Pop: -1, Wrap: w, Obj: v}
 	}
+	if w, ok := r.SubInfo[v]; ok {
+		return Ref{Pop: -1, Wrap: w, Obj: v}
+	}
 	if i, ok := r.PopIndex()[v]; ok {
 		return Ref{Pop: i, Obj: v}
 	}
@@ -468,6 +538,7 @@ type Wrap struct {
 	Orig     any
 	OrigName string
 	Version  int
+	Copy     Node // set when the substitute is a same-type copy (then this record only describes it)
 }
 
 func (w *Wrap) A() {}
